@@ -152,9 +152,29 @@ fn gen_session(seed: u64, nlines: usize) -> Vec<Line> {
                 1 if !existing.is_empty() => Stmt::Let(existing[rng.gen_range(0..existing.len())].clone(), bad),
                 _ => Stmt::Let("nieuw_in_mislukte_regel".into(), bad),
             };
+            // ... at top level, or inside a block / branch / loop body / function body that has already
+            // declared a name of its own (a rejected line must not leave that scope, or that name, behind)
+            let probe = format!("in_blok_{}", lines.len());
+            let nested = rng.gen_bool(0.45);
+            let stmt = if nested {
+                let inner = vec![Stmt::Let(probe.clone(), Expr::Int(1)), stmt];
+                match rng.gen_range(0..4) {
+                    0 => Stmt::Block(inner),
+                    1 => Stmt::Expr(Expr::If { c: Box::new(Expr::Bool(true)), th: inner, el: None }),
+                    2 => Stmt::Expr(Expr::While { c: Box::new(Expr::Bool(false)), body: inner }),
+                    _ => Stmt::Block(vec![Stmt::Block(inner)]),
+                }
+            } else {
+                stmt
+            };
             s2.insert(p, stmt);
             g.ctxs = snapshot;
             lines.push(Line { text: to_text(&s2, true), committed: vec![], full: None, fail: "compile", kind: "" });
+            // nothing the rejected line declared may be visible afterwards
+            if rng.gen_bool(0.7) {
+                let name = if nested { probe } else { "nieuw_in_mislukte_regel".to_string() };
+                lines.push(Line { text: format!("{name};"), committed: vec![], full: None, fail: "compile", kind: "" });
+            }
         } else if r < 0.36 {
             // run-time failure after the first p statements
             let p = rng.gen_range(0..=stmts.len());
